@@ -132,8 +132,23 @@ func c16workerOK(pm *ssa.Function, w ssa.Value) bool {
 		}
 		switch x := v.(type) {
 		case *ssa.Phi:
-			for _, e := range x.Edges {
-				if !check(e, depth+1) {
+			for i, e := range x.Edges {
+				if check(e, depth+1) {
+					continue
+				}
+				// a defensive clamp that can never fire: the edge is taken only where a value W that is itself a proper
+				// worker count (0 <= W <= len(list)) was found negative or above len(list)
+				infeasible := false
+				pred := x.Block().Preds[i]
+				for _, m := range core.EdgeCmps(pred) {
+					if m.X == ssa.Value(x) || !check(m.X, depth+1) {
+						continue
+					}
+					if m.Op == token.LSS && core.IsIntConst(m.Y, 0) || m.Op == token.LEQ && core.IsIntConst(m.Y, -1) || m.Op == token.GTR && isLen(m.Y) {
+						infeasible = true
+					}
+				}
+				if !infeasible {
 					return false
 				}
 			}
@@ -259,6 +274,54 @@ func c16impl(c *core.Ctx, im *ssa.Function) {
 			v = one
 		}
 		return v
+	}
+	// isWorker: v is the worker count the implementation was given - the parameter itself, or what a clamp helper returns
+	// for it when every other return case of the helper is excluded by 0 <= worker <= len(list), which PMap guarantees (R4)
+	isWorker := func(v ssa.Value) bool {
+		v = ipv(v)
+		if v == ssa.Value(worker) {
+			return true
+		}
+		call, isC := v.(*ssa.Call)
+		if !isC {
+			return false
+		}
+		h := core.Callee(&call.Call)
+		if h == nil || !p.InRepo(h) || len(h.Blocks) == 0 || h.Signature.Results().Len() != 1 {
+			return false
+		}
+		wIdx, lIdx := -1, -1
+		for i, a := range call.Call.Args {
+			if ipv(a) == ssa.Value(worker) {
+				wIdx = i
+			}
+			if lc, isL := core.Resolve(a).(*ssa.Call); isL && core.IsBuiltin(&lc.Call, "len") && ipv(lc.Call.Args[0]) == ssa.Value(list) {
+				lIdx = i
+			}
+		}
+		if wIdx < 0 || wIdx >= len(h.Params) {
+			return false
+		}
+		w := core.LinNode(core.Path(h.Params[wIdx]))
+		identity := false
+		for _, rcase := range core.ReturnCases(h) {
+			z := core.NewZone()
+			for _, m := range rcase.Cmps() {
+				z.AddCmp(m)
+			}
+			z.AddLin(core.LinConst(0).Add(w, -1), 0) // 0 <= worker
+			if lIdx >= 0 && lIdx < len(h.Params) {
+				z.AddLin(w.Add(core.LinNode(core.Path(h.Params[lIdx])), -1), 0) // worker <= len(list)
+			}
+			if !z.Consistent() {
+				continue
+			}
+			if core.Resolve(rcase.Vals[0]) != ssa.Value(h.Params[wIdx]) {
+				return false
+			}
+			identity = true
+		}
+		return identity
 	}
 	instrsFrames := func(fn func(ssa.Instruction)) {
 		for _, f := range frames {
@@ -457,7 +520,7 @@ func c16impl(c *core.Ctx, im *ssa.Function) {
 			// loop bound: i < worker
 			bound := false
 			for _, m := range core.EdgeCmps(goW.Block()) {
-				if m.Op == token.LSS && ipv(m.Y) == ssa.Value(worker) {
+				if m.Op == token.LSS && isWorker(m.Y) {
 					bound = true
 				}
 			}
@@ -583,7 +646,7 @@ func c16impl(c *core.Ctx, im *ssa.Function) {
 		instrsFrames(func(ins ssa.Instruction) {
 			if g, isG := ins.(*ssa.Go); isG && core.InLoop(g.Block()) {
 				for _, m := range core.EdgeCmps(g.Block()) {
-					if m.Op == token.LSS && ipv(m.Y) == ssa.Value(worker) && ascendingFromZero(m.X) {
+					if m.Op == token.LSS && isWorker(m.Y) && ascendingFromZero(m.X) {
 						ok = true
 					}
 				}
